@@ -232,14 +232,11 @@ fn check_tree(t: &Tree, seeds: &[u64]) -> Option<(String, String)> {
         match r {
             Err(p) => return Some(("C08 generated-configuration panic".to_string(), format!("tree {:?} seed {}: {}", t, s, p))),
             Ok((a, b, c, d)) => {
-                if a != b {
-                    return Some(("C08 generated-configuration rerun-differs".to_string(), format!("tree {:?} seed {}: {:?} vs {:?}", t, s, a, b)));
-                }
-                if a != c {
-                    return Some(("C08 generated-configuration clone-differs".to_string(), format!("tree {:?} seed {}: {:?} vs {:?}", t, s, a, c)));
-                }
-                if a != d {
-                    return Some(("C08 generated-configuration rebuilt-differs".to_string(), format!("tree {:?} seed {}: {:?} vs {:?}", t, s, a, d)));
+                // one signature for all three comparisons: under a non-deterministic subject it is
+                // arbitrary which of them differs first
+                let which = if a != b { Some("re-run") } else if a != c { Some("clone") } else if a != d { Some("rebuilt configuration") } else { None };
+                if let Some(w) = which {
+                    return Some(("C08 generated-configuration same-seed-different-result".to_string(), format!("tree {:?} seed {}: the {} gives a different result than the first run: {:?} vs {:?} / {:?} / {:?}", t, s, w, a, b, c, d)));
                 }
                 digests.insert(a.unwrap_or_else(|e| e));
             }
@@ -263,7 +260,7 @@ fn template_equalities(spec: &dyn AnySpec, seed: u64, pools: &[usize]) -> Vec<(S
     let cmp = |what: &str, o: &crate::subject::templates::RunOutcome, out: &mut Vec<(String, String)>| {
         if o.digest != base.digest || o.result != base.result {
             out.push((
-                format!("C08 template={} {}", spec.template(), what),
+                format!("C08 template={} same-seed-different-result", spec.template()),
                 format!("{} with seed {}: {} gives a different final state\n  sequential: {} {}\n  {}: {} {}", spec.name(), seed, what, base.result.is_ok(), &base.digest.chars().take(400).collect::<String>(), what, o.result.is_ok(), &o.digest.chars().take(400).collect::<String>()),
             ));
         }
@@ -271,7 +268,7 @@ fn template_equalities(spec: &dyn AnySpec, seed: u64, pools: &[usize]) -> Vec<(S
     cmp("rerun-differs", &spec.run_with(Flags::default(), &opts(EvKind::Sequential, seed, false)), &mut out);
     cmp("clone-differs", &spec.run_with(Flags::default(), &opts(EvKind::Sequential, seed, true)), &mut out);
     for &k in pools {
-        cmp(&format!("parallel-differs pool={}", if k == 1 { "1" } else { "n" }), &spec.run_with(Flags::default(), &opts(EvKind::Parallel(k), seed, false)), &mut out);
+        cmp(&format!("parallel-differs pool={}", k), &spec.run_with(Flags::default(), &opts(EvKind::Parallel(k), seed, false)), &mut out);
     }
     // a different seed must be able to give a different run (the seed is actually used)
     out
@@ -491,15 +488,26 @@ pub fn run(rep: &mut Report) {
                     }
                 }
                 Outcome::Panic(m) => part.machinery(format!("harness panic: {}", m)),
-                Outcome::Diverged(m) => part.machinery(format!("tape divergence: {}", m)),
+                Outcome::Diverged(m) => part.violate(
+                    format!("C08 template={} completion-order-changes-result", spec.template()),
+                    format!("{} seed {}: re-running with the same seed and the same completion orders {:?} took a different course ({}): the run depends on scheduling the harness does not control", spec.name(), seed, prefix, m),
+                    json!({"kind": "order", "spec": spec.name(), "seed": seed, "tape": prefix, "thorough": thorough}),
+                ),
                 Outcome::Truncated => part.truncated += 1,
             }
         });
         part.states += st.max_choices as u64;
         part.outcome(spec.template().to_string());
     }
-    for e in errors.lock().unwrap().iter().take(3) {
-        part.machinery(format!("gate: {}", e));
+    {
+        let errs = errors.lock().unwrap();
+        let deg = errs.iter().filter(|e| e.starts_with("degraded")).count();
+        if deg > 0 {
+            part.caps_hit.push(format!("{} gated evaluation steps did not run all objective calls concurrently: completion order only partially enforced there", deg));
+        }
+        for e in errs.iter().filter(|e| !e.starts_with("degraded")).take(3) {
+            part.machinery(format!("gate: {}", e));
+        }
     }
     part.sample(json!({"template": "real_ga[pop=4]", "explored": "identity order everywhere, then all 24 completion orders at each evaluation step in turn"}));
     part.require(part.traces > 20, "no completion orders explored");
@@ -559,7 +567,14 @@ pub fn replay(case: &Value) -> Result<Vec<(String, String)>, String> {
             let specs = all_specs(3, thorough);
             let name = case["spec"].as_str().ok_or("no spec")?;
             let spec = specs.iter().find(|s| s.name() == name).ok_or("spec not found")?;
-            Ok(template_equalities(spec.as_ref(), seed, &[1, 2, 3, 4, 5, 6]).into_iter().map(|(s, d)| (s.replace(" pool=n", " pool=n").to_string(), d)).collect())
+            // a non-deterministic subject may agree by chance: several attempts
+            for _ in 0..4 {
+                let v = template_equalities(spec.as_ref(), seed, &[1, 2, 3, 4, 5, 6]);
+                if !v.is_empty() {
+                    return Ok(v);
+                }
+            }
+            Ok(vec![])
         }
         "order" => {
             let specs = all_specs(3, thorough);
@@ -570,11 +585,20 @@ pub fn replay(case: &Value) -> Result<Vec<(String, String)>, String> {
             let errors = Arc::new(Mutex::new(Vec::new()));
             let base = spec.run_with(Flags::default(), &opts(EvKind::Sequential, seed, false));
             let o = opts(EvKind::Gated(pool, 4, errors), seed, false);
-            match tape::run_once(&order_cfg(), &tape, || spec.run_with(Flags::default(), &o)).0 {
-                Outcome::Done(r) => Ok(if r.digest != base.digest || r.result != base.result { vec![(format!("C08 template={} completion-order-changes-result", spec.template()), String::new())] } else { vec![] }),
-                Outcome::Panic(m) => Err(m),
-                _ => Ok(vec![]),
+            let sig = format!("C08 template={} completion-order-changes-result", spec.template());
+            for _ in 0..4 {
+                match tape::run_once(&order_cfg(), &tape, || spec.run_with(Flags::default(), &o)).0 {
+                    Outcome::Done(r) => {
+                        if r.digest != base.digest || r.result != base.result {
+                            return Ok(vec![(sig, String::new())]);
+                        }
+                    }
+                    Outcome::Diverged(_) => return Ok(vec![(sig, "not reproducible".to_string())]),
+                    Outcome::Panic(m) => return Err(m),
+                    _ => {}
+                }
             }
+            Ok(vec![])
         }
         "exp" => {
             let order: Vec<usize> = case["order"].as_array().map(|a| a.iter().map(|x| x.as_u64().unwrap() as usize).collect()).unwrap_or_default();
